@@ -691,20 +691,26 @@ def oracle_c15(rec, driver=None):
     if driver is not None and len(seq) >= 2:
         from common import fbits, bits2f
         N = cfg['n_iter']
+        reiter = rec.get('reiter') or {}
+
+        def n_after(k):
+            # `space.n_iterations` as the step between observation k and observation k + 1 reads it: the declared value, or
+            # the one hook call number `at` assigned (the loop itself still makes the N iterations it started with)
+            return reiter['n'] if reiter and k >= reiter['at'] else N
         lines, exps, names, prevs = [], [], [], []
-        for a, b in zip(seq, seq[1:]):
+        for k_, (a, b) in enumerate(zip(seq, seq[1:])):
             if kind == 'SA':
                 lines.append(f"n.sat {fbits(a['T'])} {fbits(a['beta'])}"); exps.append(b['T']); names.append('T'); prevs.append(a['T'])
             if kind == 'FA':
-                lines.append(f"n.fa {fbits(a['alpha'])} {N}"); exps.append(b['alpha']); names.append('alpha'); prevs.append(a['alpha'])
+                lines.append(f"n.fa {fbits(a['alpha'])} {n_after(k_)}"); exps.append(b['alpha']); names.append('alpha'); prevs.append(a['alpha'])
             if kind == 'WCA':
-                lines.append(f"n.wca {fbits(a['d_max'])} {N}"); exps.append(b['d_max']); names.append('d_max'); prevs.append(a['d_max'])
+                lines.append(f"n.wca {fbits(a['d_max'])} {n_after(k_)}"); exps.append(b['d_max']); names.append('d_max'); prevs.append(a['d_max'])
         if kind == 'IHS':
             for t, hp in enumerate(seq[1:N + 1]):
                 if narrowed and t + 1 == narrowed.get('at'):
                     continue        # (value computed before the hook narrowed the ranges this snapshot shows)
-                lines.append(f"n.par {fbits(hp['PAR_min'])} {fbits(hp['PAR_max'])} {N} {t}"); exps.append(hp['PAR']); names.append('PAR'); prevs.append(None)
-                lines.append(f"n.bw {fbits(hp['bw_min'])} {fbits(hp['bw_max'])} {N} {t}"); exps.append(hp['bw']); names.append('bw'); prevs.append(None)
+                lines.append(f"n.par {fbits(hp['PAR_min'])} {fbits(hp['PAR_max'])} {n_after(t)} {t}"); exps.append(hp['PAR']); names.append('PAR'); prevs.append(None)
+                lines.append(f"n.bw {fbits(hp['bw_min'])} {fbits(hp['bw_max'])} {n_after(t)} {t}"); exps.append(hp['bw']); names.append('bw'); prevs.append(None)
         if kind == 'AIWPSO':
             # w after iteration t is aiwpsoW(w_min, w_max, p, n) for some success count p in 0..n
             n = cfg['n_agents']
